@@ -383,6 +383,12 @@ class EvalMixin(CallMixin):
             for cq in sorted(self.types_of(base)):
                 if cq in repo.classes:
                     fi = repo.find_method(cq, attr)
+                    if fi is not None and any(d.endswith((".setter", ".getter")) for d in fi.decorators):
+                        # a property with a setter: the name is defined twice in the class body; reading it runs the getter
+                        from .interp import _prop_defs
+                        g_, _s = _prop_defs(repo, cq, attr)
+                        if g_ is not None:
+                            return self.call_function(g_, [base], {}, node, fr), None
                     if fi is not None:
                         if "property" in fi.decorators:
                             if self.should_inline(fi, fr):
@@ -527,6 +533,10 @@ class EvalMixin(CallMixin):
                 return BINOPS[opname](l, r)
             except Exception:
                 return Op(opname, l, r)
+        if opname in ("Add", "Sub") and (isinstance(l, Term) or isinstance(r, Term)):
+            n = _lin_combine(opname, l, r)
+            if n is not NotImplemented:
+                return n
         return Op(opname, l, r)
 
     def ex_Compare(self, node, fr):
@@ -908,3 +918,69 @@ def _hashable(v) -> bool:
 
 def _is_valueish(v) -> bool:
     return True
+
+
+def _lin(v, _d=0):
+    """integer-linear reading of a value: (constant, {term key: (coefficient, term)}) or None"""
+    if _d > 8:
+        return None
+    if isinstance(v, bool):
+        return None
+    if isinstance(v, int):
+        return v, {}
+    if isinstance(v, Op) and v.op in ("Add", "Sub") and len(v.operands) == 2:
+        a, b = _lin(v.operands[0], _d + 1), _lin(v.operands[1], _d + 1)
+        if a is None or b is None:
+            return None
+        sign = 1 if v.op == "Add" else -1
+        atoms = {k: (c, t) for k, (c, t) in a[1].items()}
+        for k, (c, t) in b[1].items():
+            c0 = atoms.get(k, (0, t))[0]
+            atoms[k] = (c0 + sign * c, t)
+        return a[0] + sign * b[0], atoms
+    if isinstance(v, (Sym, Attr, Sub)):
+        return 0, {v.key(): (1, v)}
+    return None
+
+
+def _lin_combine(opname, l, r):
+    """l (+|-) r over integer-linear terms, simplified only when something actually cancels or two constants fold (x - (x - 3) -> 3; (n - 3) - 4 -> n - 7);
+    anything else (concatenations, graph unions, set differences) is left exactly as written."""
+    L, R = _lin(l), _lin(r)
+    if L is None or R is None:
+        return NotImplemented
+    sign = 1 if opname == "Add" else -1
+    atoms = dict(L[1])
+    cancelled = False
+    for k, (c, t) in R[1].items():
+        c0 = atoms.get(k, (0, t))[0]
+        atoms[k] = (c0 + sign * c, t)
+        if k in L[1]:
+            cancelled = True
+    const = L[0] + sign * R[0]
+    folds = L[0] != 0 and R[0] != 0
+    if not (cancelled or folds):
+        return NotImplemented
+    atoms = {k: v for k, v in atoms.items() if v[0] != 0}
+    if not atoms:
+        return const
+    if any(abs(c) > 3 for c, _ in atoms.values()):
+        return NotImplemented
+    expr = None
+    for k in sorted(atoms):
+        c, t = atoms[k]
+        for _ in range(max(c, 0)):
+            expr = t if expr is None else Op("Add", expr, t)
+    if const > 0:
+        expr = const if expr is None else Op("Add", expr, const)
+    elif const < 0 and expr is not None:
+        expr = Op("Sub", expr, -const)
+    elif const < 0:
+        expr = const
+    for k in sorted(atoms):
+        c, t = atoms[k]
+        for _ in range(max(-c, 0)):
+            if expr is None:
+                return NotImplemented
+            expr = Op("Sub", expr, t)
+    return expr if expr is not None else NotImplemented
